@@ -24,7 +24,8 @@ func C04(c *core.Ctx) {
 		"properties of every non-pointer kind (formats, typed additionalProperties maps, arrays, booleans), objects inside arrays (depth 1 and 2), behind a definition reference, anyOf branch types, " +
 		"objects with additionalProperties, and a name listed in `required` that has no property. For every struct the emitted Unmarshal methods must contain, before the typed decode and guarded by " +
 		"raw != nil, a presence test on the raw map for exactly the raw name of each required, non-defaulted property — and for no other key (A-NOEXTRA). " +
-		"allOf families (2..4 branches, overlapping properties, a constraint-only branch adding `required`, a referenced branch) are included on the modelled mergo merge."
+		"allOf families (2..4 branches, overlapping properties, a constraint-only branch adding `required`, a referenced branch, a base that also requires a sibling's property) are included on the modelled mergo merge. " +
+		"A-TYPEFORM: the decoder hands the generator the type list exactly as written (two-element lists in both orders), so the nullable members of the families stand for the documents that spell them."
 	rules := ruleSet("A-REQ", "A-NOEXTRA", "A-TAG")
 	cfg := gen.DefaultConfig()
 	var ms []member
@@ -45,6 +46,9 @@ func C04(c *core.Ctx) {
 		})
 	}
 	ruleMultiSel(c, ruleSet("A-REQ", "A-NOEXTRA", "A-MAP"), 2, "differing only in required", "pure allOf composition")
+	// the families start from the schema MODEL; a document reaches that model through the decoders: a type list arrives as written
+	// (nullable objects in both orders keep their struct and so their presence checks), and both spellings of a one-element list agree
+	ruleTypeForm(c)
 	c.Floor("families", c.Counts["members"], 100, "family members")
 }
 
